@@ -1,14 +1,16 @@
 package props
 
 import (
-	"google.golang.org/protobuf/proto"
 	"bytes"
 	"context"
 	"encoding/binary"
 	"fmt"
+	"google.golang.org/protobuf/proto"
+	"runtime"
 	"sort"
 	"strings"
 	"sync"
+	"sync/atomic"
 	"testing/synctest"
 	"time"
 
@@ -133,6 +135,66 @@ type slowMutate struct {
 }
 
 func (s *slowMutate) NewResponse() proto.Message { time.Sleep(s.d); return s.Mutate.NewResponse() }
+
+// schedGet / schedMutate own two scheduling points of a call's result channel: the moment the region
+// client is about to deliver a result to it (deliver) and the first moment its owner is about to collect
+// from it (collect). Who is asking is told from the call stack (the region client lives in package
+// .../gohbase/region). Virtual delays there model a reader or a collector goroutine that is descheduled
+// for a while - nothing a correct client may depend on.
+type schedPoints struct {
+	collect, deliver time.Duration
+	collected        atomic.Bool
+}
+
+func (p *schedPoints) at() {
+	pcs := make([]uintptr, 12)
+	n := runtime.Callers(3, pcs)
+	frames := runtime.CallersFrames(pcs[:n])
+	fromRegion := false
+	for {
+		f, more := frames.Next()
+		if strings.Contains(f.Function, "tsuna/gohbase/region.") {
+			fromRegion = true
+		}
+		if !more {
+			break
+		}
+	}
+	if fromRegion {
+		if p.deliver > 0 {
+			time.Sleep(p.deliver)
+		}
+		return
+	}
+	if p.collect > 0 && p.collected.CompareAndSwap(false, true) {
+		time.Sleep(p.collect)
+	}
+}
+
+type schedGet struct {
+	*hrpc.Get
+	p *schedPoints
+}
+
+func (s *schedGet) ResultChan() chan hrpc.RPCResult { s.p.at(); return s.Get.ResultChan() }
+
+type schedMutate struct {
+	*hrpc.Mutate
+	p *schedPoints
+}
+
+func (s *schedMutate) ResultChan() chan hrpc.RPCResult { s.p.at(); return s.Mutate.ResultChan() }
+
+func wrapSched(call hrpc.Call, collect, deliver time.Duration) hrpc.Call {
+	p := &schedPoints{collect: collect, deliver: deliver}
+	switch c := call.(type) {
+	case *hrpc.Get:
+		return &schedGet{c, p}
+	case *hrpc.Mutate:
+		return &schedMutate{c, p}
+	}
+	return call
+}
 
 func wrapSlow(call hrpc.Call, d time.Duration) hrpc.Call {
 	switch c := call.(type) {
